@@ -161,6 +161,19 @@ def from_blackbird_to_tdm(bb: blackbird.BlackbirdProgram) -> TDMProgram:
     return prog
 
 
+def _op_parameters(op) -> list:
+    """Parameters of an operation as they have to be written out, such that re-creating the
+    operation from them gives back the same operation."""
+    name = op.__class__.__name__
+    params = list(op.p)
+
+    if name == "Fouriergate":
+        # the rotation angle is fixed, the constructor takes no arguments
+        params = []
+
+    return params
+
+
 def to_blackbird(prog: Program, version: str = "1.0") -> blackbird.BlackbirdProgram:
     """Convert a Strawberry Fields Program to a Blackbird Program.
 
@@ -210,7 +223,7 @@ def to_blackbird(prog: Program, version: str = "1.0") -> blackbird.BlackbirdProg
                     op["kwargs"]["dark_counts"] = cmd.op.dark_counts
 
         else:
-            for a in cmd.op.p:
+            for a in _op_parameters(cmd.op):
                 if sfpar.par_is_symbolic(a):
                     # SymPy object, convert to string
                     if any(map(isMeasuredParameter, a.free_symbols)):
